@@ -264,4 +264,37 @@ def Names.remove (r : Names) (key : String) : Names := r.filter (fun e => !(e.1 
 /-- `async_update = _remove; _add` -/
 def Names.update (r : Names) (key : String) (oid : Nat) : Except PyExc Names := (r.remove key).add key oid
 
+/-! ### `async_register_service` as a whole (`_core.py:346-351`): check, `registry.async_add`, announcement task -/
+
+/-- what one `async_register_service` call leaves behind -/
+structure RegResult where
+  /-- the check as far as the wake-ups given took it -/
+  cfg : Cfg
+  /-- the registry's key table afterwards -/
+  names : Names
+  /-- the announcement task, spawned only when the check completed and the name was added -/
+  task : Option Task
+  /-- the exception the call raised, if any (`NonUniqueNameException`, `BadTypeInNameException`, `ServiceNameAlreadyRegistered`) -/
+  error : Option PyExc
+  deriving Repr
+
+/-- `await self.async_check_service(...)`; `self.registry.async_add(info)`; `ensure_future(self._async_broadcast_service(info, _REGISTER_TIME, None))`.
+`none` = the wake-ups are not a run of the coroutine (a wake-up after its timer, or after it ended). -/
+def registerRun (allow : Bool) (valid : String → Bool) (lower : String → String) (names : Names) (svc : Svc) (inst : String) (oid : Nat)
+    (w0 : Wake) (ws : List Wake) : Option RegResult :=
+  match (Cfg.start { allow, valid, bucket := w0.bucket } svc inst w0.now).run allow valid ws with
+  | none => none
+  | some c =>
+    match c.phase with
+    | .done =>
+      match names.add (lower c.st.svc.name) oid with
+      | .ok names' => some { cfg := c, names := names', task := some (announceTask c.st.svc oid c.st.now), error := none }
+      | .error e => some { cfg := c, names := names, task := none, error := some e }
+    | .failed e => some { cfg := c, names := names, task := none, error := some e }
+    | _ => some { cfg := c, names := names, task := none, error := none }
+
+/-- everything the call (and the task it spawned) puts on the wire -/
+def RegResult.wire (r : RegResult) : List (Int × Pkt) :=
+  r.cfg.sent ++ (match r.task with | some t => t.schedule 3 | none => [])
+
 end Zc.Register
